@@ -39,10 +39,10 @@ PROPS = {
  ),
  "C03": dict(
     level="proof",
-    claim="Proof of NumPy's shape law, source-index law and element law for transpose (default and compile-time axes), moveaxis and swapaxes (compile-time axes incl. negative) at ranks 1..4 for every extent and index, and the same laws for run-time axes (transpose with a run-time permutation, moveaxis with run-time ints) and for arrays whose shape is a bounded run-time-length static_vector (the library's run-time-loop branches); reshape (run-time target shape), flatten and expand_dims keep C order in closed form (source index = unravel(ravel(dst, dst_shape), src_shape)) with the requested / NumPy shape, ranks up to 3x3; shape laws of shape_reshape incl. one -1, expand_dims and atleast_nd at index level; shape_squeeze keeps exactly the non-1 extents in order for every pattern of single extents at ranks 1..4 (view::squeeze is reshape to that shape); flip is decided only by the axis-normalisation rule.",
+    claim="Proof of NumPy's shape law, source-index law and element law for transpose (default and compile-time axes), moveaxis and swapaxes (compile-time axes incl. negative) at ranks 1..4 for every extent and index, and the same laws for run-time axes (transpose with a run-time permutation, moveaxis with run-time ints) and for arrays whose shape is a bounded run-time-length static_vector (the library's run-time-loop branches); reshape (run-time target shape), flatten and expand_dims keep C order in closed form (source index = unravel(ravel(dst, dst_shape), src_shape)) with the requested / NumPy shape, ranks up to 3x3; shape laws of shape_reshape incl. one -1, expand_dims and atleast_nd at index level; shape_squeeze keeps exactly the non-1 extents in order for every pattern of single extents at ranks 1..4 (view::squeeze is reshape to that shape); flip_slices reverses exactly the requested axes (scalar, list incl. negative entries, None; ranks 1..4) - the element law of flip then rests on the slicing of C05, which is not decided; moveaxis with several axes: the permutation is NumPy's for EVERY pair of duplicate-free axis lists of length 2 (ranks 3, 4, entries non-negative or negative; length 3 at rank 4 in the thorough tier) - exhaustive, since the function depends only on rank and lists.",
     note=E1_NOTE,
     technique=E1_TECH,
-    e1=[dict(tu="c03_rearrange.cpp"), dict(tu="c03b_dynamic.cpp"), dict(tu="c03c_reshape.cpp"), dict(tu="c15_args.cpp"), dict(tu="c02_capacity.cpp"), dict(tu="c03d_squeeze.cpp")],
+    e1=[dict(tu="c03_rearrange.cpp"), dict(tu="c03b_dynamic.cpp"), dict(tu="c03c_reshape.cpp"), dict(tu="c15_args.cpp"), dict(tu="c02_capacity.cpp"), dict(tu="c03d_squeeze.cpp"), dict(tu="c03e_flip.cpp"), dict(tu="c03f_moveaxis_multi.cpp")],
     e2=[dict(rule="R-AXISNORM"), dict(rule="R-PARAMUSE")],
     rule=E1_RULE + "; E2: one instance per comparison of a position with an axis-valued expression in the anchor files (R-AXISNORM)",
     explanation="expected shape and source index are written from NumPy's definitions in the driver; the element law is equality of the bits loaded through the view and through the source at the expected index.",
@@ -78,7 +78,7 @@ PROPS = {
     claim="Proof of the value/Nothing boundary of broadcast_shape (all rank pairs up to 3x3), of moveaxis with in-range versus out-of-range compile-time and run-time axes, of normalize_axis (scalar and arrays of 1..3 axes, every ndim <= 64) with NumPy's normalised value, and of shape_reshape (element-count mismatch, zero extent, negative extent, two -1, one -1 with/without divisibility, inferred extent = numel / product of the others), of shape_pad (value exactly when the width has two entries per axis) and index::pad (Nothing exactly for coordinates in the padding), and of shape_matmul (Nothing whenever the contraction lengths differ, every rank pair up to 4x4; value with NumPy's shape for operands of rank <= 2); plus, over ~6000 instantiated functions of the maybe-lifting layer (index, view, eval, kernel helper, isequal/isclose), every dereference of a maybe-typed expression is dominated by the true edge of a truth test on that expression, and every integer division in index/ and view/ has a validated or role-justified divisor (the reshape divisor is tied to the zero-extent validation). The value/Nothing boundary of the remaining operations is not decided.",
     note=E1_NOTE + " " + E2_NOTE,
     technique=E1_TECH + " + CFG typestate/dominance rules (test-before-dereference, zero-guarded division) on instantiations",
-    e1=[dict(tu="c06_broadcast.cpp"), dict(tu="c03_rearrange.cpp"), dict(tu="c03b_dynamic.cpp"), dict(tu="c15_args.cpp"), dict(tu="c06b_broadcast_to.cpp"), dict(tu="c04b_concat.cpp"), dict(tu="c15b_pad_matmul.cpp")],
+    e1=[dict(tu="c06_broadcast.cpp"), dict(tu="c03_rearrange.cpp"), dict(tu="c03b_dynamic.cpp"), dict(tu="c15_args.cpp"), dict(tu="c06b_broadcast_to.cpp"), dict(tu="c04b_concat.cpp"), dict(tu="c15b_pad_matmul.cpp"), dict(tu="c03f_moveaxis_multi.cpp")],
     e2=[dict(rule="R-MAYBE-DIV")],
     rule=E1_RULE + "; E2: one instance per dereference of a maybe-typed expression / per integer division site in the instantiated lifting functions (drivers/maybe_inst.cpp)",
     explanation="value exactly when NumPy accepts, Nothing exactly when NumPy raises, for the listed operations; an empty optional is never dereferenced = every dereference is dominated by a truth test of the same expression (typestate rule on the CFG); no division by an unvalidated user-derived divisor.",
